@@ -329,10 +329,11 @@ theorem gen_sbb_spec (a b c : ℕ) (ha : a < W) (hb : b < W) (hc : c < W) :
     ∧ (Ruint.Gen.sbb a b c).1 < W ∧ (Ruint.Gen.sbb a b c).2 < W :=
   Ruint.GenCore.sbb_spec a b c ha hb hc
 
-/-! ## Whole-kernel tie of `adc_n` / `sbb_n` to the source (G)
+/-! ## Whole-kernel tie of the slice kernels to the source (G)
 
-`Ruint.Gen.adc_n` / `sbb_n` are regenerated from `src/algorithms/add.rs` by `tools/rs2lean.py` on every run — the complete
-functions, `for i in 0..lhs.len()` as an index loop with `lhs[i]` reads and writes and the `&mut` slice returned next to the
+`Ruint.Gen.adc_n`, `sbb_n` (`src/algorithms/add.rs`), `add_nx1` (both early exits), `mul_nx1`, `addmul_nx1`, `submul_nx1`
+(`mul.rs`), `shift_left_small`, `shift_right_small` (`shift.rs`, the reversed iterator) are regenerated by `tools/rs2lean.py`
+on every run — the complete functions, `for i in 0..lhs.len()` as an index loop with `lhs[i]` reads and writes and the `&mut` slice returned next to the
 carry. On word slices with `|lhs| ≤ |rhs|` the models `adcN` / `sbbN` of `adc_n_spec` / `sbb_n_spec` EQUAL them. -/
 
 theorem gen_adc_n_eq (lhs rhs : List ℕ) (c : ℕ) (hl : lhs.length ≤ rhs.length) (hn : lhs.length < 2 ^ 64)
@@ -344,6 +345,37 @@ theorem gen_sbb_n_eq (lhs rhs : List ℕ) (c : ℕ) (hl : lhs.length ≤ rhs.len
     (hwl : AllLt lhs) (hwr : AllLt rhs) (hc : c < W) :
     sbbN W lhs rhs c = some (Ruint.Gen.sbb_n (lhs.length + 1) lhs rhs c) :=
   Ruint.GenKernels.sbb_n_eq lhs rhs c hl hn hwl hwr hc
+
+theorem gen_add_nx1_eq (lhs : List ℕ) (a : ℕ) (hn : lhs.length < 2 ^ 64) (hw : AllLt lhs) (ha : a < W) :
+    Ruint.Gen.add_nx1 (lhs.length + 1) lhs a = addNx1 W lhs a :=
+  Ruint.GenKernels.add_nx1_eq lhs a hn hw ha
+
+theorem gen_mul_nx1_eq (lhs : List ℕ) (a : ℕ) (hn : lhs.length < 2 ^ 64) (hw : AllLt lhs) (ha : a < W) :
+    Ruint.Gen.mul_nx1 (lhs.length + 1) lhs a = mulNx1 W lhs a :=
+  Ruint.GenKernels.mul_nx1_eq lhs a hn hw ha
+
+theorem gen_addmul_nx1_eq (lhs a : List ℕ) (b : ℕ) (hl : lhs.length = a.length) (hn : a.length < 2 ^ 64)
+    (hwl : AllLt lhs) (hwa : AllLt a) (hb : b < W) :
+    Ruint.Gen.addmul_nx1 (a.length + 1) lhs a b = addmulNx1 W lhs a b :=
+  Ruint.GenKernels.addmul_nx1_eq lhs a b hl hn hwl hwa hb
+
+/-- `submul_nx1`: the generated function returns `borrow + carry` as a `u64` sum; it equals the model's plain sum
+    because that sum is a word (`submul_nx1_spec`). -/
+theorem gen_submul_nx1_eq (lhs a : List ℕ) (b : ℕ) (hl : lhs.length = a.length) (hn : a.length < 2 ^ 64)
+    (hwl : AllLt lhs) (hwa : AllLt a) (hb : b < W) :
+    Ruint.Gen.submul_nx1 (a.length + 1) lhs a b = submulNx1 W lhs a b := by
+  rw [Ruint.GenKernels.submul_nx1_eq' lhs a b hl hn hwl hwa hb]
+  have h := (submul_nx1_spec lhs a b hl hwl hwa hb).2.2.2.1
+  have e : (submulNx1 W lhs a b).2 % 2 ^ 64 = (submulNx1 W lhs a b).2 := Nat.mod_eq_of_lt h
+  rw [e]
+
+theorem gen_shift_left_small_eq (limbs : List ℕ) (amount : ℕ) (ham : amount ≤ 64) (hn : limbs.length < 2 ^ 64) :
+    Ruint.Gen.shift_left_small (limbs.length + 1) limbs amount = shlSmall limbs amount :=
+  Ruint.GenKernels.shift_left_small_eq limbs amount ham hn
+
+theorem gen_shift_right_small_eq (limbs : List ℕ) (amount : ℕ) (ham : amount ≤ 64) (hn : limbs.length < 2 ^ 64) :
+    Ruint.Gen.shift_right_small (limbs.length + 1) limbs amount = shrSmall limbs amount :=
+  Ruint.GenKernels.shift_right_small_eq limbs amount ham hn
 
 /-! ## non-vacuity: concrete branch witnesses evaluated by the kernel -/
 
